@@ -230,4 +230,49 @@ example :
       t.wUnfinished = 0 ∧ t.reads = 2 ∧ t.logged = 1 ∧ t.readQ = [⟨0x19, 0x56, 0x45, 0x30, 0x05, []⟩] ∧
       t.lossScheduled = 1 := by decide
 
+/-! ### bursts of any length (no bound on the read queue, no back-pressure loss) -/
+
+theorem deliveredOf_delivered (fs : List Fields) : deliveredOf (fs.map fun f => ROut.frame (.delivered f)) = fs := by
+  induction fs with
+  | nil => rfl
+  | cons f fs ih => simp [deliveredOf, ih]
+
+/-- **burst_enqueued**: a burst of N frames read back-to-back — for EVERY N, with frames queued for writing meanwhile —
+ends with exactly those N frames on the read queue, in order, each once: `put_nowait` on an unbounded queue never
+refuses, there is no length at which frames start to be dropped. -/
+theorem burst_enqueued (fixed : Bool) (q : List Nat) (script : List Cyc) (fs : List Fields)
+    (hscript : ∀ c ∈ script, c.disc = false ∧ c.wr = .ok) :
+    (Producer.run fixed (init q) script (fs.map fun f => ROut.frame (.delivered f))).readQ = fs ∧
+    (Producer.run fixed (init q) script (fs.map fun f => ROut.frame (.delivered f))).running = true := by
+  have hr : ∀ rd ∈ fs.map (fun f => ROut.frame (.delivered f)), rd.stops = false := by
+    intro rd h
+    obtain ⟨f, _, rfl⟩ := List.mem_map.mp h
+    rfl
+  obtain ⟨h1, h2, _⟩ := producer_continues fixed q script _ hscript hr
+  refine ⟨?_, h1⟩
+  rw [enqueued_exactly_delivered, h2, List.take_length, deliveredOf_delivered]
+
+/-- … and on the consumers' side: N arrivals while every consumer is held up (no take, no finish) leave all N queued
+behind what was queued before, the unfinished count N higher — for every N (`Pool.step .arrive` is unconditional) -/
+theorem burst_all_queued (cfg : Pool.Cfg) (s : Pool.St) (fs : List Pool.Frame) :
+    (fs.foldl (fun s f => Pool.step true cfg s (.arrive f)) s).queue = s.queue ++ fs ∧
+    (fs.foldl (fun s f => Pool.step true cfg s (.arrive f)) s).unfinished = s.unfinished + fs.length ∧
+    (fs.foldl (fun s f => Pool.step true cfg s (.arrive f)) s).inHand = s.inHand := by
+  induction fs generalizing s with
+  | nil => simp
+  | cons f fs ih =>
+    obtain ⟨a, b, c⟩ := ih (Pool.step true cfg s (.arrive f))
+    simp only [List.foldl_cons]
+    refine ⟨?_, ?_, ?_⟩
+    · rw [a]; simp [Pool.step]
+    · rw [b]; simp [Pool.step]; omega
+    · rw [c]; simp [Pool.step]
+
+/-- a burst of 300 (the harness feeds up to 1200 in one chunk in the quick tier): nothing is lost -/
+example (cfg : Pool.Cfg) :
+    (((List.range 300).map fun i => (⟨i, .data, 69, true, 1, false⟩ : Pool.Frame)).foldl
+      (fun s f => Pool.step true cfg s (.arrive f)) (Pool.init 3)).unfinished = 300 := by
+  rw [(burst_all_queued cfg (Pool.init 3) _).2.1]
+  simp [Pool.init]
+
 end PlumVerif.C09Producer
